@@ -150,7 +150,9 @@ def make_network(rng, dim=2, n=6, n_fixed=2, datum="fixed", noise=1.0, extra=0.5
                 o2.append({"t": "direction", "to": rng.choice(others)})
             else:
                 o2 = [ob for ob in o2 if ob["t"] != "direction"]
-        orient[frm] = rng.uniform(0, TWO_PI) if orientation_shifts else 0.0
+        # the orientation shift of a direction set is a point of a circle: besides arbitrary values take the ones at the cuts
+        # 0 / 200 / 400 gon, where bearing - reading straddles -pi / +pi (a median taken there as on a line is 200 gon off)
+        orient[frm] = (rng.choice([0.0, math.pi, math.pi, TWO_PI - 1e-9, math.pi / 2]) if rng.random() < 0.25 else rng.uniform(0, TWO_PI)) if orientation_shifts else 0.0
         if with_heights and dim == 3:
             for ob in o2:
                 if ob["t"] in ("s-distance", "z-angle") and rng.random() < 0.5:
